@@ -115,13 +115,17 @@ def run(ctx):
     if gomp is not None:
         gomp.omp_set_num_threads(os.cpu_count() or 4)
     # ---- Python API
-    api_runs = 40 if ctx.thorough else 12
+    api_runs = 48 if ctx.thorough else 18
     for k in range(api_runs):
         n = rng.randint(2, 6)
         ndim = 2 if k % 6 == 3 else rng.choice([1, 1, 2])      # multivariate multiprocessing routes in every run
         equal = rng.random() < 0.5
         series = c06.make_series(rng, n, ndim, equal, tagged=False)
-        data = c06.container(series, ndim, "matrix" if (equal and k % 2) else "list")
+        # containers: matrix, list, and a list of non-contiguous views on the same numbers (the parallel wrappers have
+        # their own conversion step in front of the C code)
+        data = c06.container(series, ndim, "matrix" if (equal and k % 2) else ("list", "list_views")[k % 3 == 2])
+        if k % 3 == 2:
+            res.hit("api_list_of_views")
         b = rng.choice(list(c06.all_blocks(n)))
         psi = rng.choice([None, 1, (1, 0, 0, 1), (0, 1, 1, 0)])
         kw = {"window": rng.choice([None, 2]), "psi": psi}
@@ -136,7 +140,9 @@ def run(ctx):
             res.evaluations += 1
             res.nontrivial.add(repr((n, b, name, psi, tuple(map(tuple, series)))))
             try:
-                serial = list(mod.distance_matrix(data, block=c06.block_arg(b), compact=True, parallel=False,
+                # reference: the serial routine of the same engine on plain contiguous copies
+                plain = [np.ascontiguousarray(x) for x in data] if isinstance(data, list) else data
+                serial = list(mod.distance_matrix(plain, block=c06.block_arg(b), compact=True, parallel=False,
                                                   use_c=rk["use_c"], **extra, **kw))
                 par = list(mod.distance_matrix(data, block=c06.block_arg(b), compact=True, **rk, **extra, **kw))
             except BaseException as e:
